@@ -202,9 +202,10 @@ def gcvRows : Sheet → Nat → Nat → Val
 /-- `getCellStringFunc` with `GetCellValue`'s closure: rows after the last
 row's `r` are empty; otherwise the first cell whose reference equals the
 requested one in a row whose `r` equals the requested row. -/
+def lastNum (s : Sheet) : Nat := match s.getLast? with | some row => row.r | none => 0
+
 def getCellValue (s : Sheet) (c r : Nat) : Val :=
-  let lastRowNum := match s.getLast? with | some row => row.r | none => 0
-  if r > lastRowNum then [] else gcvRows s c r
+  if r > lastNum s then [] else gcvRows s c r
 
 /-! ## Impl: what loading does (checkSheet, checkSheetR0, checkRow) -/
 
@@ -269,7 +270,7 @@ def checkSheet (s : Sheet) : Outcome (List Row) :=
   let st := s.foldl cs1Step ⟨0, [], []⟩
   let slots0 : List Row := List.replicate st.row emptyRow
   let slots1 := st.kept.foldl (fun sl r => sl.set (r.r - 1) r) slots0
-  let last := match st.kept.getLast? with | some r => r.r | none => 0
+  let last := lastNum st.kept
   match r0Rows st.r0 slots1 with
   | .ok slots2 =>
     -- `for i := 1; i <= row; i++ { sheetData.Row[i-1].R = i; checkSheetR0(.., false) }`
@@ -290,11 +291,14 @@ def crPlace : List Cell → List Cell → Outcome (List Cell)
   | c :: cs, tgt =>
     if c.col = 0 ∨ c.col > tgt.length then .panic else crPlace cs (tgt.set (c.col - 1) c)
 
+/-- column of the last cell of a row (`rowData.C[colCount-1].R`) -/
+def lastColOf (cs : List Cell) : Nat := match cs.getLast? with | some c => c.col | none => 0
+
 /-- `checkRow` on row slot `idx` -/
 def checkRow1 (idx : Nat) (r : Row) : Outcome Row :=
   if r.cells.isEmpty then .ok r else
   let cs := crAssign (idx + 1) 0 r.cells
-  let lastCol0 := match cs.getLast? with | some c => c.col | none => 0
+  let lastCol0 := lastColOf cs
   if cs.length < lastCol0 then
     -- cells may be out of order: size the row by its greatest column
     let lastCol := if Facts.C04.checkRowSizesByGreatest
